@@ -20,13 +20,16 @@ import (
 
 func init() { core.Register("migrate", migrateSuite) }
 
-var migKinds = []string{"migrate", "migrate", "samegca", "badinner", "foreign-order", "badmig", "success", "success", "badsrvsig", "reset", "stale"}
+var migKinds = []string{"migrate", "migrate", "samegca", "badinner", "foreign-order", "selfsigned", "badmig", "success", "success", "badsrvsig", "reset", "stale"}
 
 func runMigrateHistory(h *histRun, kind string) error {
 	rng := h.rng
 	n := rng.Range(1, 3)
 	if kind == "move-banned" {
 		n = 3
+	}
+	if kind == "k7" || kind == "samegca" {
+		n = 1 // the forced scenarios must not depend on which server the client happens to pick
 	}
 	initial := map[glow.PublicKey]client.GCAServer{}
 	for i := 0; i < n; i++ {
@@ -62,7 +65,7 @@ func runMigrateHistory(h *histRun, kind string) error {
 		}
 		h.count("hist.newclient-crosscheck")
 	}
-	rounds := rng.Range(4, 7)
+	rounds := rng.Range(5, 7)
 	for r := 0; r < rounds && !h.dead; r++ {
 		known := stateMap(client.VerifState(h.c))
 		plan := map[glow.PublicKey]beh{}
@@ -74,14 +77,14 @@ func runMigrateHistory(h *histRun, kind string) error {
 			}
 			bk := migKinds[rng.Intn(len(migKinds))]
 			switch {
-			case kind == "k7" && r == 1:
+			case kind == "k7" && r == 0:
 				bk, label = "migrate0", "migrate0"
-			case kind == "chain" && (r == 1 || r == 3):
+			case kind == "chain" && (r == 0 || r == 2):
 				bk, label = "migrate", "migrate"
-			case kind == "rejects" && r < 4:
-				bk = []string{"badinner", "foreign-order", "badmig", "badsrvsig"}[r]
+			case kind == "rejects" && r < 5:
+				bk = []string{"badinner", "foreign-order", "badmig", "badsrvsig", "selfsigned"}[r]
 				label = bk
-			case kind == "samegca" && r == 1:
+			case kind == "samegca" && r == 0:
 				bk, label = "samegca", "samegca"
 			case kind == "move-banned" && r < 2:
 				bk, label = "ban-then-move", "ban-then-move"
@@ -182,8 +185,8 @@ func migrateSuite(seed uint64, tier, outDir string) (*core.Result, error) {
 		}
 	}
 	res.Required = append(res.Required, "round.migrate", "round.migrate0", "round.migrated", "round.migrated-to-empty-list", "round.samegca", "round.ban-then-move",
-		"attempt.badinner", "attempt.foreign-order", "attempt.badmig", "attempt.badsrvsig", "attempt.success", "hist.load", "hist.load.refused",
-		"hist.newclient-crosscheck", "reply.ban", "reply.unban-attempt", "reply.changed-ports", "reply.new-server")
+		"attempt.badinner", "attempt.foreign-order", "attempt.selfsigned", "attempt.badmig", "attempt.badsrvsig", "attempt.migrate", "attempt.migrate0", "attempt.samegca",
+		"attempt.ban-then-move", "hist.load", "hist.load.refused", "hist.newclient-crosscheck")
 	res.Rule = "client histories over scripted servers: list updates (new, ban, un-ban attempt, changed ports), migration orders (valid with 1..4 servers and duplicate keys, none, foreign device, bad outer signature, inner entry signed by the old GCA, order naming the current GCA), chains of two migrations, restarts after every adoption (hook loader and real NewClient); non-trivial = at least one accepted reply"
 	return res, nil
 }
